@@ -3,7 +3,8 @@
     [at1 st tid i m]: one trace tid is loaded and stands at index i of 0..m.
     The condition is an arbitrary evaluator behaviour satisfying the property's premise (it reads
     the trace at the current index): it yields a value whose truth [P i] depends on the index only
-    and leaves the position alone; it may change any other state (fill caches, print).
+    and leaves the position (and an arbitrary caller-chosen invariant Inv, e.g. the trace's signal
+    data) alone; it may change any other state (fill caches, print).
     PARTIAL: (1) that every condition of the trace-reading fragment meets this premise is not proved
     in Coq; (2) the lock-step visit order with two traces is proved only as far as position
     neutrality (T-neutral, any number of traces) — results with two traces are decided by the
@@ -19,37 +20,67 @@ Section Single.
   Variable tid : string.
   Variable c : val.
   Variable P : Z -> bool.
-  Hypothesis Hc : forall st i m, at1 st tid i m ->
-    exists v st', ev c st = Ok v st' /\ at1 st' tid i m /\ truthy st' v = P i.
+  (** [Inv]: what the condition relies on and a scan does not disturb (e.g. "the trace's signal data is D");
+      [at1i st i m] = Inv st and one trace tid at index i of 0..m *)
+  Variable Inv : state -> Prop.
+  Hypothesis Inv_move : forall st t j, Inv st -> c_traces (st_cont st) = [(tid, t)] -> 0 <= j <= tr_max t ->
+    Inv (set1 st tid (set_index t j)).
+  Hypothesis Hc : forall st i m, at1i tid Inv st i m ->
+    exists v st', ev c st = Ok v st' /\ at1i tid Inv st' i m /\ truthy st' v = P i.
 
   (** (find c): exactly the indices i..m at which c is truthy, ascending, no duplicates; index restored *)
   Theorem find_is_filter : forall fuel st i m,
-    at1 st tid i m -> 0 <= i <= m -> (Z.to_nat (m - i) < fuel)%nat ->
+    at1i tid Inv st i m -> 0 <= i <= m -> (Z.to_nat (m - i) < fuel)%nat ->
     exists st', op_find fuel ev [c] st = Ok (PL (map VInt (filter P (zrange_nat i (S (Z.to_nat (m - i))))))) st'
-                /\ at1 st' tid i m.
-  Proof. exact (find_single ev tid c P Hc). Qed.
+                /\ at1i tid Inv st' i m.
+  Proof. exact (find_single ev tid c P Inv Inv_move Hc). Qed.
 
   (** (find/g c), one trace: the same positions as indices; index restored *)
   Theorem find_g_is_filter : forall fuel st i m,
-    at1 st tid i m -> 0 <= i <= m -> (Z.to_nat (m - i) < fuel)%nat ->
+    at1i tid Inv st i m -> 0 <= i <= m -> (Z.to_nat (m - i) < fuel)%nat ->
     exists st', op_find_g fuel ev [c] st = Ok (PL (map VInt (filter P (zrange_nat i (S (Z.to_nat (m - i))))))) st'
-                /\ at1 st' tid i m.
-  Proof. exact (find_g_single ev tid c P Hc). Qed.
+                /\ at1i tid Inv st' i m.
+  Proof. exact (find_g_single ev tid c P Inv Inv_move Hc). Qed.
 
   (** (whenever c body...), one trace: refinement to the loop "for j in i..m: go to j; evaluate c;
       if truthy evaluate the body once and remember its value", then the index is put back *)
   Variable body : list val.
-  Hypothesis Hb : forall st i m vs st', at1 st tid i m -> eval_args ev body st = Ok vs st' -> at1 st' tid i m.
+  Hypothesis Hb : forall st i m vs st', at1i tid Inv st i m -> eval_args ev body st = Ok vs st' -> at1i tid Inv st' i m.
 
   Theorem whenever_is_for_loop : forall fuel st i m,
-    at1 st tid i m -> 0 <= i <= m -> (Z.to_nat (m - i) < fuel)%nat -> body <> [] ->
+    at1i tid Inv st i m -> 0 <= i <= m -> (Z.to_nat (m - i) < fuel)%nat -> body <> [] ->
     op_whenever fuel ev (c :: body) st =
     (r <- wh_spec ev tid c body (zrange_nat i (S (Z.to_nat (m - i)))) VNone ;; set_trace_index tid i ;;; ret r) st.
-  Proof. exact (whenever_single ev tid c P Hc body Hb). Qed.
+  Proof. exact (whenever_single ev tid c P Inv Inv_move Hc body Hb). Qed.
 End Single.
 Print Assumptions find_is_filter.
 Print Assumptions find_g_is_filter.
 Print Assumptions whenever_is_for_loop.
+
+(** pointwise, in the property's own words: if c can be evaluated at every index and leaves the state as it
+    was, (find c) from index i returns exactly the indices j >= i at which c, evaluated on its own with the
+    trace at j, is truthy - ascending, without duplicates - and the state afterwards is the state before *)
+Theorem find_returns_the_indices_where_c_is_truthy : forall (ev : val -> M val) tid c st0 t0,
+  tr_tid t0 = tid ->
+  (forall j, 0 <= j <= tr_max t0 -> exists v, ev c (at_idx tid st0 t0 j) = Ok v (at_idx tid st0 t0 j)) ->
+  forall fuel i, 0 <= i <= tr_max t0 -> (Z.to_nat (tr_max t0 - i) < fuel)%nat ->
+  op_find fuel ev [c] (at_idx tid st0 t0 i) =
+  Ok (PL (map VInt (filter (truth_at ev tid c st0 t0) (zrange_nat i (S (Z.to_nat (tr_max t0 - i))))))) (at_idx tid st0 t0 i).
+Proof. exact find_pointwise. Qed.
+Print Assumptions find_returns_the_indices_where_c_is_truthy.
+
+Theorem truth_at_means : forall ev tid c st0 t0 j,
+  truth_at ev tid c st0 t0 j = match ev c (at_idx tid st0 t0 j) with Ok v s => truthy s v | _ => false end /\
+  at_idx tid st0 t0 j = set1 st0 tid (set_index t0 j).
+Proof. intros. split; reflexivity. Qed.
+Print Assumptions truth_at_means.
+
+(** the premise is met by the real evaluator (fuel 1200) on the condition (= a 1) over a five-sample trace *)
+Theorem find_with_the_real_evaluator :
+  op_find 10 Api.ev0 [sig_cond] (at_idx "t" sig_state sig_trace 0) =
+  Ok (PL [VInt 1; VInt 2; VInt 4]) (at_idx "t" sig_state sig_trace 0).
+Proof. exact find_on_real_evaluator. Qed.
+Print Assumptions find_with_the_real_evaluator.
 
 (** the reference loop, for reading *)
 Theorem wh_spec_equations : forall ev tid c body last j r,
